@@ -90,9 +90,9 @@ class CTMCGrid(SpatialGrid):
 
     @right_point.register
     def _(self, coordinate: CoordinateND) -> tuple[float]:
-        grid_length = len(self.axes[0])  # FIXME: fixed length across all axes
         return tuple(
-            self.axes[k][min(grid_length - 1, c + 1)] for k, c in enumerate(coordinate)
+            self.axes[k][min(len(self.axes[k]) - 1, c + 1)]
+            for k, c in enumerate(coordinate)
         )
 
     @singledispatchmethod
